@@ -423,6 +423,59 @@ func (e *c19Env) l2(out *zzverif.Out, c *c19Case, costs []int, r *c19Real, line 
 		}
 	}
 	cnt := func(j int) int { return strings.Count(r.prompt, c19Marker(j)) }
+	// Diagnosis for the legacy (non-messages) template path only: message j's pending
+	// system/prompt/response slot is overwritten, without having been rendered, by a later message
+	// of the same role when everything between them is inert for the legacy loop (a role it
+	// ignores, or an empty content that does not trigger a flush).  Evaluated on the list the
+	// specification says the template must receive: system messages before n, then msgs[n:].
+	var input []int
+	for j := 0; j < n; j++ {
+		if c.msgs[j].role == "s" {
+			input = append(input, j)
+		}
+	}
+	for j := n; j < L; j++ {
+		input = append(input, j)
+	}
+	overwrittenBy := func(j int) int {
+		if c.style != c19StyleLegacy && c.style != c19StyleDefault {
+			return -1
+		}
+		R := c.msgs[j].role
+		p := -1
+		for x, y := range input {
+			if y == j {
+				p = x
+			}
+		}
+		if p < 0 {
+			return -1
+		}
+		q := p + 1
+		for q < len(input) && c.msgs[input[q]].role == R {
+			q++
+		}
+		start := q
+		for q < len(input) {
+			m := c.msgs[input[q]]
+			legacyRole := m.role == "s" || m.role == "u" || m.role == "a"
+			if m.role != R && (!legacyRole || m.content == "") {
+				q++
+				continue
+			}
+			break
+		}
+		if q > start && q < len(input) && c.msgs[input[q]].role == R {
+			return input[q]
+		}
+		return -1
+	}
+	why := func(j int) string {
+		if k := overwrittenBy(j); k >= 0 {
+			return fmt.Sprintf(" legacy-overwritten-by=%d", k)
+		}
+		return ""
+	}
 
 	// (a) latest kept
 	if hasMarker(L-1) && c19Rendered(c.style, c.msgs[L-1].role) && cnt(L-1) == 0 {
@@ -438,7 +491,7 @@ func (e *c19Env) l2(out *zzverif.Out, c *c19Case, costs []int, r *c19Real, line 
 		sys := c.msgs[j].role == "s"
 		switch {
 		case j >= n && k != 1:
-			out.L2("retained-missing", line, fmt.Sprintf("message %d (role %s) of the retained run [%d:] occurs %d times in the prompt", j, c.msgs[j].role, n, k))
+			out.L2("retained-missing", line, fmt.Sprintf("style=%d%s: message %d (role %s) of the retained run [%d:] occurs %d times in the prompt", c.style, why(j), j, c.msgs[j].role, n, k))
 		case j < n && !sys && k != 0:
 			out.L2("dropped-present", line, fmt.Sprintf("message %d precedes the retained run [%d:] but occurs %d times in the prompt", j, n, k))
 		case j < n && sys && k != 1:
@@ -447,11 +500,7 @@ func (e *c19Env) l2(out *zzverif.Out, c *c19Case, costs []int, r *c19Real, line 
 			if j == n-1 {
 				where = "at-cut"
 			}
-			prevEmpty := ""
-			if j+1 < L && c.msgs[j+1].content == "" {
-				prevEmpty = " next-empty"
-			}
-			out.L2("system-dropped", line, fmt.Sprintf("%s style=%d%s: system message %d precedes the retained run [%d:] and occurs %d times in the prompt", where, c.style, prevEmpty, j, n, k))
+			out.L2("system-dropped", line, fmt.Sprintf("%s style=%d%s: system message %d precedes the retained run [%d:] and occurs %d times in the prompt", where, c.style, why(j), j, n, k))
 		}
 		if k == 1 && !(sys && c.style == c19StyleMessages) {
 			pos := strings.Index(r.prompt, c19Marker(j))
@@ -509,7 +558,7 @@ func (e *c19Env) l2(out *zzverif.Out, c *c19Case, costs []int, r *c19Real, line 
 		}
 		if c19Rendered(c.style, c.msgs[w.msg].role) {
 			if got := strings.Count(r.prompt, tag); got != 1 {
-				out.L2("image-tag-prompt", line, fmt.Sprintf("tag %s (message %d, role %s, style %d) occurs %d times in the prompt", tag, w.msg, c.msgs[w.msg].role, c.style, got))
+				out.L2("image-tag-prompt", line, fmt.Sprintf("style=%d%s: tag %s (message %d, role %s) occurs %d times in the prompt", c.style, why(w.msg), tag, w.msg, c.msgs[w.msg].role, got))
 			}
 		} else {
 			out.Count("image_on_role_not_rendered_by_template")
@@ -731,4 +780,25 @@ func TestVerifC19(t *testing.T) {
 		c.limit = e.pickLimit(r, c, e.costs(c))
 		e.runCase(out, c)
 	}
+}
+
+// TestVerifC19Probe shows the two findings on the real code with no model involved
+// (`go test -run TestVerifC19Probe -v`).
+func TestVerifC19Probe(t *testing.T) {
+	legacy, _ := template.Parse(c19TemplateSrc[c19StyleLegacy])
+	tok := func(_ context.Context, s string) ([]int, error) { return make([]int, len(strings.Fields(s))), nil }
+	run := func(limit int, msgs []api.Message) string {
+		opts := api.Options{Runner: api.Runner{NumCtx: limit}}
+		p, _, err := chatPrompt(context.Background(), &Model{Template: legacy}, tok, &opts, msgs, nil)
+		if err != nil {
+			t.Fatal(err)
+		}
+		return p
+	}
+	// F4: the system message at the cut is dropped
+	t.Logf("F4 prompt=%q", run(1, []api.Message{{Role: "user", Content: "long long long"}, {Role: "system", Content: "SYS"}, {Role: "user", Content: "hi"}}))
+	// legacy overwrite: everything fits, yet "hello" / "first" / "A" never reach the prompt
+	t.Logf("legacy-overwrite (empty assistant) prompt=%q", run(2048, []api.Message{{Role: "user", Content: "hello"}, {Role: "assistant", Content: ""}, {Role: "user", Content: "again"}}))
+	t.Logf("legacy-overwrite (tool between) prompt=%q", run(2048, []api.Message{{Role: "user", Content: "first"}, {Role: "tool", Content: "42"}, {Role: "user", Content: "second"}}))
+	t.Logf("legacy-overwrite (system) prompt=%q", run(2048, []api.Message{{Role: "system", Content: "A"}, {Role: "user", Content: ""}, {Role: "system", Content: "B"}, {Role: "user", Content: "hi"}}))
 }
